@@ -11,7 +11,7 @@ cfg_t *g_free_log[4];
 int cfg_free(cfg_t *cfg)
 {
 	if (!cfg) { errno = EINVAL; return CFG_FAIL; }
-	__CPROVER_assert(cfg->path == NULL, "C07,C02: a section is handed to cfg_free only after the shared search path was detached from it");
+	__CPROVER_assert(cfg->path == NULL, "C07,C02,C17,C13: a section is handed to cfg_free only after the shared search path was detached from it");
 	if (g_free_calls < 4) g_free_log[g_free_calls] = cfg;
 	if (g_free_calls < 1000) g_free_calls++;
 	g_free_last = cfg;
